@@ -379,15 +379,19 @@ fn chain_doc(trivia: &Trivia, chain: &Chain) -> Doc {
         // …unless a head term carries a comment (it forces a break): flattening it would comment out
         // the rest of the line, so fall back to the ordinary grouped layout, which breaks safely.
         if !head_docs.iter().any(pretty::forces_break) {
-            let head_flat = head_docs
-                .iter()
-                .map(pretty::flatten)
-                .collect::<Vec<_>>()
-                .join(" ");
+            let mut head_flat = String::new();
+            for (index, doc) in head_docs.iter().enumerate() {
+                if index > 0 {
+                    let pipe = needs_explicit_pipe(&head[index - 1], &head[index]);
+                    head_flat.push_str(if pipe { " ~> " } else { " " });
+                }
+                head_flat.push_str(&pretty::flatten(doc));
+            }
+            let pipe = needs_explicit_pipe(&head[head.len() - 1], &tail[0]);
             return pretty::concat(vec![
                 prefix,
                 pretty::text(head_flat),
-                pretty::text(" "),
+                pretty::text(if pipe { " ~> " } else { " " }),
                 term_doc(trivia, &tail[0]),
             ]);
         }
@@ -417,7 +421,9 @@ fn chain_terms_doc(trivia: &Trivia, terms: &[Term]) -> Doc {
     let mut parts = Vec::new();
     for (index, term) in terms.iter().enumerate() {
         if index > 0 {
-            if is_call_ender(&terms[index - 1]) {
+            if needs_explicit_pipe(&terms[index - 1], term) {
+                parts.push(pretty::text(" ~> "));
+            } else if is_call_ender(&terms[index - 1]) {
                 parts.push(pretty::line());
                 parts.push(pretty::if_break(pretty::text("~> "), pretty::nil()));
             } else {
@@ -427,6 +433,19 @@ fn chain_terms_doc(trivia: &Trivia, terms: &[Term]) -> Doc {
         parts.push(term_doc(trivia, term));
     }
     pretty::concat(parts)
+}
+
+/// Whether `next` must be separated from `previous` by an explicit `~>`: a block directly after a
+/// body-less function (`#'int ~> { … }`, `@#'int ~> { … }`) would otherwise be read as that
+/// function's body.
+fn needs_explicit_pipe(previous: &Term, next: &Term) -> bool {
+    let bodiless =
+        |term: &Term| matches!(term, Term::Function(function) if function.body.is_none());
+    let previous_is_bodiless = match previous {
+        Term::Spawn(inner, _) => bodiless(inner),
+        other => bodiless(other),
+    };
+    previous_is_bodiless && matches!(next, Term::Block(_))
 }
 
 /// Whether a term completes a call unit: the flowing value is consumed here (a callable applied, a
